@@ -37,6 +37,10 @@ def run(ctx):
         "no seek() calls (C03/C13)",
         "crash points (kill = connections aborted + every task of the member cancelled), fault placements and "
         "schedules of the implementation are sampled by the simulator",
+        "a record whose deserializer always raises can never be handed out: the acceptor then demands that no commit "
+        "passes it and that no later record of that partition is delivered in the same ownership epoch (the unchanged "
+        "consumer stays in front of it, raising on every poll) — skipping it, even after the application saw the "
+        "exception, is reported as delivery-skips-visible-records / commit-passes-undelivered-records",
         "liveness ('the group eventually delivers every record') is not claimed: the theorems are the safety form — "
         "nothing below a committed offset or below a new owner's start is undelivered",
     ]
@@ -45,5 +49,8 @@ def run(ctx):
         "deliveries or at time t, subscription and partition-count changes, coordinator failover with/without state), "
         "auto-commit period 150..1500 ms racing deliveries, commit() every 5 / 17 records, OffsetCommit replies "
         "failing with 14,15,16,7,25,22,27, lost / dropped / delayed group and fetch replies, 25 % transactional "
-        "producers (control batches = invisible offsets). non-trivial = ≥2 generations, ≥1 delivery, ≥1 commit")
+        "producers (control batches = invisible offsets); hand-outs that fail in the middle: key / value deserializers that raise "
+        "on chosen records (once per member incarnation, or always) and Fetch responses carrying one batch with a wrong "
+        "CRC (check_crcs=True, once) — the application catches the exception from getone()/getmany(), keeps polling, "
+        "committing and auto-committing; a record whose hand-out raised was NOT handed out. non-trivial = ≥2 generations, ≥1 delivery, ≥1 commit")
     G.run_check(ctx, "C04", CLAUSE.get, n_quick=100, n_thorough=4000)
